@@ -9,10 +9,14 @@
      P fi fo enc ms chunk i             unit impulse at input index i: first / last / peak non-zero output index
      D api ch seed mode bw fms dapi dch  in situ: the tree's encoder (api Hz, ch) makes packets (mode 1000/1001, bandwidth
                                         1101.., frame ms); a real decoder at dapi Hz, dch channels decodes them
+     V api ch seed bw fms dapi          in situ, sample values: decoder at dapi vs decoder at the internal rate + the real resampler
      E api ch seed                      in situ: the real encoder across bandwidth switches, resampler state after each frame
    argv[1] = "exact": additionally run every whole-ms call on exactly-sized heap buffers (ASan build). */
 #include "hx_common.h"
 #include <math.h>
+#include <sys/types.h>
+#include <sys/wait.h>
+#include <fcntl.h>
 #include "opus.h"
 #include "opus_private.h"
 #include "silk/API.h"
@@ -88,8 +92,18 @@ static void exact_call(const silk_resampler_state_struct *S, const opus_int16 *i
 static void do_init(int fi, int fo, int enc) {
    silk_resampler_state_struct *A = (silk_resampler_state_struct *)calloc(1, sizeof *A);
    silk_resampler_state_struct *B = (silk_resampler_state_struct *)malloc(sizeof *B);
-   int ra, rb;
+   int ra, rb, status = 0; pid_t pid;
    memset(B, 0xA5, sizeof *B);
+   /* a rejected pair is celt_assert( 0 ) (abort) in assertion / hardening builds and -1 otherwise: try it in a child first */
+   fflush(stdout);
+   pid = fork();
+   if (pid == 0) { int fd = open("/dev/null", O_WRONLY); if (fd >= 0) dup2(fd, 2); _exit(silk_resampler_init(B, fi, fo, enc) == 0 ? 0 : 1); }
+   if (pid < 0 || waitpid(pid, &status, 0) != pid) { fprintf(stderr, "fork failed\n"); exit(3); }
+   if (!(WIFEXITED(status) && WEXITSTATUS(status) == 0)) {
+      js_open("init"); js_int("x", g_x); js_int("fi", fi); js_int("fo", fo); js_int("enc", enc); js_int("r", -1); js_int("r2", -1);
+      js_int("aborted", !WIFEXITED(status) || WEXITSTATUS(status) != 1); js_state("st", A); js_int("same", 1); js_close();
+      free(A); free(B); return;
+   }
    ra = silk_resampler_init(A, fi, fo, enc);
    rb = silk_resampler_init(B, fi, fo, enc);
    js_open("init"); js_int("x", g_x); js_int("fi", fi); js_int("fo", fo); js_int("enc", enc); js_int("r", ra); js_int("r2", rb);
@@ -124,7 +138,7 @@ static int run_chunks(silk_resampler_state_struct *S, const opus_int16 *x, const
       int len = ch[i] * S->Fs_in_kHz, holes, can, ret, hw;
       if (g_exact) exact_call(S, x + pos, len);
       hw = guarded_call(S, x + pos, len, len * 6 + 128, op + len * 6 + 128 <= cap ? out + op : NULL, &holes, &can, &ret);
-      if (holes || !can || ret) return -1 - i;
+      if (!can || ret) return -1 - i;      /* holes stay in: unwritten cells keep the sentinel, so they show in the digest */
       pos += len; op += hw;
    }
    return op;
@@ -235,8 +249,64 @@ static void do_dec(int api, int ch, unsigned long seed, int mode, int bw, int fm
    free(pcm); opus_encoder_destroy(e); opus_decoder_destroy(d);
 }
 
+/* in situ, sample values: the same SILK-only packets decoded at dapi (decoder A) and at the internal rate announced by the
+   TOC (decoder B: the copy path, a pure delay); B's output pushed through the REAL silk_resampler (fresh init, internal -> dapi,
+   decoder tables) must be A's output delayed by a whole number of samples; the shifts 0..255 for which the two agree
+   bit-exactly over the whole run are recorded per channel (TLC judges which shift the model predicts) */
+static void do_insitu(int api, int ch, unsigned long seed, int bw, int fms, int dapi) {
+   int err = 0, i, c, fs = api * fms / 1000, intfs = 0, na = 0, nb = 0, toc0 = -1, tocsame = 1, shs[2][8], nsh[2] = {0, 0}, nz = 0; hx_rng r; double ph = 0;
+   OpusEncoder *e = opus_encoder_create(api, ch, OPUS_APPLICATION_VOIP, &err);
+   OpusDecoder *A = opus_decoder_create(dapi, ch, &err), *B = NULL;
+   float *pcm = (float *)malloc(sizeof(float) * (size_t)fs * ch);
+   opus_int16 *oa = (opus_int16 *)calloc((size_t)48 * 60 * 8 * 2 + 16, 2), *ob = (opus_int16 *)calloc((size_t)48 * 60 * 8 * 2 + 16, 2);
+   opus_int16 *rb = (opus_int16 *)calloc((size_t)48 * 60 * 8 + 4096, 2), *tmp = (opus_int16 *)calloc((size_t)48 * 60 * 8 + 16, 2);
+   unsigned char pkt[1500];
+   r.s = seed;
+   opus_encoder_ctl(e, OPUS_SET_FORCE_MODE(1000)); opus_encoder_ctl(e, OPUS_SET_BANDWIDTH(bw)); opus_encoder_ctl(e, OPUS_SET_BITRATE(20000 + 12000 * ch));
+   for (i = 0; i < 8; i++) {
+      int len, ra, rbk;
+      sig_f(pcm, fs, ch, &r, &ph);
+      len = opus_encode_float(e, pcm, fs, pkt, 1500);
+      if (len < 1) break;
+      if (toc0 < 0) {
+         int cfg = pkt[0] >> 3; toc0 = pkt[0];
+         intfs = cfg < 4 ? 8000 : cfg < 8 ? 12000 : 16000;
+         B = opus_decoder_create(intfs, ch, &err);
+      }
+      if ((pkt[0] >> 3) != (toc0 >> 3) || (pkt[0] >> 3) >= 12) tocsame = 0;
+      ra = opus_decode(A, pkt, len, oa + (size_t)na * ch, dapi * 120 / 1000, 0);
+      rbk = opus_decode(B, pkt, len, ob + (size_t)nb * ch, intfs * 120 / 1000, 0);
+      if (ra < 0 || rbk < 0) { tocsame = 0; break; }
+      na += ra; nb += rbk;
+   }
+   for (c = 0; c < ch && B; c++) {
+      silk_resampler_state_struct S; int pos = 0, op = 0, sh, k, frame = intfs / 1000 * (c ? 7 : 20);
+      if (silk_resampler_init(&S, intfs, dapi, 0) != 0) break;
+      for (k = 0; k < nb; k++) { tmp[k] = ob[(size_t)k * ch + c]; if (tmp[k]) nz++; }
+      while (pos < nb) {            /* channel 0 in 20 ms calls, channel 1 in 7 ms calls (chunking invariance in passing) */
+         int len = nb - pos < frame ? nb - pos : frame;
+         silk_resampler(&S, rb + op, tmp + pos, len);
+         pos += len; op += len / (intfs / 1000) * (dapi / 1000);
+      }
+      for (sh = 0; sh < 256 && nsh[c] < 8; sh++) {
+         int ok = op == na && na > sh;
+         for (k = sh; ok && k < na; k++) if (rb[k] != oa[(size_t)(k - sh) * ch + c]) ok = 0;
+         for (k = 0; ok && k < sh; k++) if (rb[k] != 0) ok = 0;
+         if (ok) shs[c][nsh[c]++] = sh;
+      }
+   }
+   js_open("insitu"); js_int("x", g_x); js_int("api", api); js_int("ch", ch); js_int("dapi", dapi); js_int("fms", fms); js_int("toc", toc0); js_int("tocsame", tocsame);
+   js_int("intfs", intfs); js_int("na", na); js_int("nb", nb); js_int("nz", nz);
+   js_arr_i("sh0", shs[0], nsh[0]); js_arr_i("sh1", shs[1], ch == 2 ? nsh[1] : 0);
+   js_close();
+   free(pcm); free(oa); free(ob); free(rb); free(tmp); opus_encoder_destroy(e); opus_decoder_destroy(A); if (B) opus_decoder_destroy(B);
+}
+
 static void do_enc(int api, int ch, unsigned long seed) {
-   static const int bws[] = { 1103, 1101, 1102, 1103, 1104, 1102, 1101, 1105, 1103 };
+   /* phases: {mode, bandwidth, max_data_bytes}: a small byte budget lowers maxInternalSampleRate (immediate clamp 16 -> 12 -> 8),
+      hybrid raises minInternalSampleRate to 16 kHz (immediate clamp up); each real rate change runs silk_setup_resamplers' re-buffering */
+   static const int phs[][3] = { {1000, 1103, 1500}, {1000, 1103, 19}, {1000, 1103, 17}, {1001, 1104, 1500}, {1000, 1102, 1500}, {1000, 1103, 17},
+                                 {1000, 1103, 1500}, {1001, 1105, 1500}, {1000, 1103, 19}, {1000, 1101, 1500} };
    int err = 0, i, k, fs = api / 50; hx_rng r; double ph = 0;
    OpusEncoder *e = opus_encoder_create(api, ch, OPUS_APPLICATION_VOIP, &err);
    const enc_mirror *m = (const enc_mirror *)e; opus_int ssz = 0;
@@ -247,13 +317,14 @@ static void do_enc(int api, int ch, unsigned long seed) {
    if (m->silk_enc_offset < (int)sizeof(enc_mirror) || m->celt_enc_offset < m->silk_enc_offset + ssz || m->celt_enc_offset > m->silk_enc_offset + ssz + 16
        || opus_encoder_get_size(ch) < m->celt_enc_offset) { fprintf(stderr, "encoder mirror check failed\n"); exit(3); }
    opus_encoder_ctl(e, OPUS_SET_FORCE_MODE(1000)); opus_encoder_ctl(e, OPUS_SET_BITRATE(20000 + 10000 * ch));
-   for (k = 0; k < 9; k++) {
-      opus_encoder_ctl(e, OPUS_SET_BANDWIDTH(bws[(k + (int)(seed % 3)) % 9]));
-      for (i = 0; i < 4; i++) {
+   for (k = 0; k < 10; k++) {
+      const int *phz = phs[(k + (int)(seed % 3)) % 10];
+      opus_encoder_ctl(e, OPUS_SET_FORCE_MODE(phz[0])); opus_encoder_ctl(e, OPUS_SET_BANDWIDTH(phz[1]));
+      for (i = 0; i < 3; i++) {
          const silk_encoder *se = (const silk_encoder *)((const char *)e + m->silk_enc_offset); int len;
          sig_f(pcm, fs, ch, &r, &ph);
-         len = opus_encode_float(e, pcm, fs, pkt, 1500);
-         js_open("enc"); js_int("x", g_x); js_int("api", api); js_int("ch", ch); js_int("len", len); js_int("toc", len > 0 ? pkt[0] : -1);
+         len = opus_encode_float(e, pcm, fs, pkt, phz[2]);
+         js_open("enc"); js_int("x", g_x); js_int("api", api); js_int("ch", ch); js_int("len", len); js_int("toc", len > 0 ? pkt[0] : -1); js_int("cap", phz[2]);
          js_int("fsk", se->state_Fxx[0].sCmn.fs_kHz); js_int("apif", se->state_Fxx[0].sCmn.API_fs_Hz);
          js_state("st", &se->state_Fxx[0].sCmn.resampler_state);
          if (ch == 2) { js_int("fsk1", se->state_Fxx[1].sCmn.fs_kHz); js_state("st1", &se->state_Fxx[1].sCmn.resampler_state); }
@@ -287,6 +358,7 @@ int main(int argc, char **argv) {
       case 'M': if (n >= 6) do_mem(v[0], v[1], v[2], (unsigned long)v[3], v[4], v + 5, n - 5); break;
       case 'P': if (n >= 6) do_imp(v[0], v[1], v[2], v[3], v[4], v[5]); break;
       case 'D': if (n >= 8) do_dec(v[0], v[1], (unsigned long)v[2], v[3], v[4], v[5], v[6], v[7]); break;
+      case 'V': if (n >= 6) do_insitu(v[0], v[1], (unsigned long)v[2], v[3], v[4], v[5]); break;
       case 'E': if (n >= 3) do_enc(v[0], v[1], (unsigned long)v[2]); break;
       default: break;
       }
